@@ -16,7 +16,7 @@ import (
 
 func init() {
 	Register(&Scenario{Prop: "C03", Name: "authorised-writers-only", Run: scenC03, SoftParks: true, Weight: 1,
-		Rule: "creator/writer W, honest replica R, optionally an honest non-writer instance X (in half of the runs block fetches fail while R and X open the database - manifest, access controller, write list - and a failed Open is retried on the same instance), and an adversary peer holding its own keys (sometimes also listed as a colluding writer); write list kind drawn per run {explicit ids, wildcard, none given = creator only} and access controller {ipfs, simple}; 1-4 honest writes, then 2-6 hostile attempts, each a cell of (forgery: own non-writer identity | copied writer id | copied identity block | identity block + swapped key | any of the 16 mixes of victim's / adversary's identity public key, id signature, public-key signature and entry key under the victim's id) x (route: announced head | direct-channel head exchange | manual Sync | predecessor (next) of a colluding writer's valid entry | named only in that entry's refs); in half of the runs the receiver finally restarts and loads what it had persisted x (position: on top of the current heads | detached | far-ahead clock); oracle at every quiescent step on every honest replica: no entry crafted without a writer's signing key is in the log, visible state equals the LWW replay of honest entries; a non-writer's local write returns an error and changes nothing; with the wildcard only the positive direction (the outsider's entry is merged) is checked; non-trivial = >=2 distinct (forgery, route) cells were delivered to a replica that had replicated >=1 honest entry"})
+		Rule: "creator/writer W, honest replica R, optionally an honest non-writer instance X (in half of the runs block fetches fail while R and X open the database - manifest, access controller, write list - and a failed Open is retried on the same instance), and an adversary peer holding its own keys (sometimes also listed as a colluding writer); write list kind drawn per run {explicit ids, wildcard, none given = creator only} and access controller {ipfs, simple}; 1-4 honest writes, then 2-6 hostile attempts, each a cell of (forgery: own non-writer identity | copied writer id | copied writer id under an identity type the provider does not know | copied identity block | identity block + swapped key | any of the 16 mixes of victim's / adversary's identity public key, id signature, public-key signature and entry key under the victim's id) x (route: announced head | direct-channel head exchange | manual Sync | predecessor (next) of a colluding writer's valid entry | named only in that entry's refs); in half of the runs the receiver finally restarts and loads what it had persisted x (position: on top of the current heads | detached | far-ahead clock); oracle at every quiescent step on every honest replica: no entry crafted without a writer's signing key is in the log, visible state equals the LWW replay of honest entries; a non-writer's local write returns an error and changes nothing; with the wildcard only the positive direction (the outsider's entry is merged) is checked; non-trivial = >=2 distinct (forgery, route) cells were delivered to a replica that had replicated >=1 honest entry"})
 }
 
 func scenC03(k *K) {
@@ -121,7 +121,7 @@ func scenC03(k *K) {
 		attempts = k.C.Range(2, 12)
 	}
 	for a := 0; a < attempts; a++ {
-		kind := []string{"own", "copied-id", "copied-block", "block-and-key", "mix", "mix"}[k.C.Intn(6)]
+		kind := []string{"own", "copied-id", "copied-block", "block-and-key", "mix", "mix", "foreign-type"}[k.C.Intn(7)]
 		if kind == "mix" {
 			kind = "mix:" + string([]byte{"VA"[k.C.Intn(2)], "VA"[k.C.Intn(2)], "VA"[k.C.Intn(2)], "VA"[k.C.Intn(2)]})
 		}
